@@ -1,7 +1,10 @@
 use core::convert::TryInto;
 
 use crate::{
-    error::{assert_finite, assert_limited_precision, panic_power_negative_base},
+    error::{
+        assert_finite, assert_finite_operands, assert_limited_precision, panic_divide_by_0,
+        panic_power_negative_base,
+    },
     fbig::FBig,
     repr::{Context, Repr, Word},
     round::{Round, Rounded},
@@ -171,7 +174,7 @@ impl<R: Round> Context<R> {
     ///
     /// Panics if the precision is unlimited.
     pub fn powf<const B: Word>(&self, base: &Repr<B>, exp: &Repr<B>) -> Rounded<FBig<R, B>> {
-        assert_finite(base);
+        assert_finite_operands(base, exp);
         assert_limited_precision(self.precision); // TODO: we can allow it if exp is integer
 
         // shortcuts
@@ -181,6 +184,10 @@ impl<R: Round> Context<R> {
             let repr = self.repr_round_ref(base);
             return repr.map(|v| FBig::new(v, *self));
         } else if base.is_zero() {
+            if exp.sign() == Sign::Negative {
+                // 0 to a negative power is a division by zero
+                panic_divide_by_0()
+            }
             return Exact(FBig::ZERO);
         }
         if base.sign() == Sign::Negative {
